@@ -19,7 +19,8 @@ META = {
                      'predecessors in a separate class); critical_path() compared with the exact longest-path reference, result '
                      'members checked for identity with WBS leaves, whole-WBS snapshot equal around the call. evaluations = calls '
                      'judged; non-trivial = >=2 leaves and >=1 link; distinct = (#leaves, #links, summary links, fractional, '
-                     '#critical, #chains)',
+                     '#critical, #chains); plus an exhaustive small-scope layer: every forest on <=4 tasks x every set of <=3 links x every '
+                     'assignment of durations {0, 0.1, 0.2, 0.3} to the leaves (every 4th in the quick tier; <=4 links and all in the thorough tier)',
                 assumptions=['effective dependency graph acyclic (D1)', 'numbers with <=2 decimals so that legitimate float error '
                              '(<=1e-12) is far from the smallest real difference (0.01)', 'bounded: <=10 tasks']),
 }
@@ -233,8 +234,38 @@ def judge(prop, case, acc):
         acc.violation(key, msg, case)
 
 
+def _exhaustive_layer(tier, shard, nshards, acc):
+    """small-scope layer: every forest on <=4 tasks x every set of <=3 (quick) / <=4 (thorough) links x every assignment of the
+    durations {0, 0.1, 0.2, 0.3} to the leaves (summaries get a junk estimate) -- all ties between parallel chains whose
+    decimal lengths are equal but whose float sums differ (0.1+0.2 vs 0.3) are in there"""
+    import itertools
+    from vf import exh_sched
+    vals = ['0', '0.1', '0.2', '0.3']
+    k = 0
+    for n, parents, links in exh_sched.cases('fwd', 4, 4 if tier == 'thorough' else 3):
+        ch = {i: [c for c in range(n) if parents[c] == i] for i in range(n)}
+        leaves = [i for i in range(n) if not ch[i]]
+        if not links and n > 1 and tier != 'thorough':
+            continue
+        if sched.effective_cycle([{'parent': p_} for p_ in parents], [list(x) for x in links]):
+            continue      # C12 quantifies over acyclic WBSs
+        for combo in itertools.product(vals, repeat=len(leaves)):
+            k += 1
+            if k % nshards != shard:
+                continue
+            if tier != 'thorough' and k % 4:
+                continue
+            tasks = [{'id': i + 1, 'parent': parents[i], 'estimate': '7', 'spent': None} for i in range(n)]
+            for i, v in zip(leaves, combo):
+                tasks[i]['estimate'] = v
+            judge('C12', {'kind': 'cp', 'tasks': tasks, 'links': [list(x) for x in links], 'externals': []}, acc)
+            acc.cases += 1
+            acc.count('exhaustive_small_scope_cases')
+
+
 def run_shard(prop, tier, seed, shard, nshards, budget, acc):
     idx = 0
+    _exhaustive_layer(tier, shard, nshards, acc)
     while budget.more():
         rnd = core.case_rng(seed, shard, idx, 'cp')
         idx += 1
